@@ -35,7 +35,7 @@ func runC23(c *Ctx) {
 
 	c.Rule("C23-R1", "G+O", "EnsureDirStateGlobs: a failed write clears content and changed; globbing follows the write phase; the clean-up then removes every match", 5)
 	writes := CallSites(eds, efs)
-	globs := CallSites(eds, globObj)
+	globs := P.CallsMatchingDeep(eds, ToFn(globObj)) // the listing may sit in a helper: its call site stands for it
 	removes := CallSites(eds, rmObj)
 	if len(writes) != 1 || len(globs) != 1 || len(removes) != 1 {
 		c.Undecided("osutil.EnsureDirStateGlobs#shape", eds.Pos(), fmt.Sprintf("expected one EnsureFileState, one filepath.Glob and one os.Remove call, found %d/%d/%d", len(writes), len(globs), len(removes)))
@@ -127,12 +127,29 @@ func runC23(c *Ctx) {
 	c.Rule("C23-R2", "G", "os.Remove only of paths returned by filepath.Glob(Join(dir, glob)); removed appended only after a successful removal", 3)
 	// removed path = key of the matches map filled from Glob results
 	okSrc := false
+	// (when the listing was moved into a helper, g is the helper's call site, gReal the Glob call in gFn)
+	gReal, gFn := g, eds
+	if rcs, in := P.CallSitesDeep(eds, globObj); len(rcs) == 1 && in != eds {
+		gReal, gFn = rcs[0], in
+		c.touch(gFn)
+		liftCtx = append(liftCtx, liftFrame{gFn, g})
+		defer func() { liftCtx = liftCtx[:len(liftCtx)-1] }()
+	}
 	if rl := LoopContaining(eds, rm); rl != nil && rl.Coll != nil {
 		// the ranged map is filled (MapUpdate) with elements of the Glob result
-		for _, b := range eds.Blocks {
+		filled := rl.Coll
+		if gFn != eds && VRes(0, func(ci ssa.CallInstruction) bool { return ci == g })(rl.Coll) {
+			// the map the helper returns
+			for _, lf := range ReturnLeaves(gFn, 0) {
+				if !IsNilConst(lf.Val) {
+					filled = lf.Val
+				}
+			}
+		}
+		for _, b := range gFn.Blocks {
 			for _, in := range b.Instrs {
-				if mu, ok := in.(*ssa.MapUpdate); ok && Strip(mu.Map) == Strip(rl.Coll) {
-					if l2 := LoopContaining(eds, mu); l2 != nil && l2.Coll != nil && VRes(0, func(ci ssa.CallInstruction) bool { return ci == g })(l2.Coll) && VIs(l2.Elem)(mu.Key) {
+				if mu, ok := in.(*ssa.MapUpdate); ok && Strip(mu.Map) == Strip(filled) {
+					if l2 := LoopContaining(gFn, mu); l2 != nil && l2.Coll != nil && VRes(0, func(ci ssa.CallInstruction) bool { return ci == gReal })(l2.Coll) && VIs(l2.Elem)(mu.Key) {
 						okSrc = true
 					}
 				}
@@ -145,7 +162,7 @@ func runC23(c *Ctx) {
 	// Glob argument is Join(dir, glob)
 	joinObj := P.FuncObj("path/filepath.Join")
 	okGlobArg := false
-	if jc, _, ok := CallResult(g.Common().Args[0]); ok && ToFn(joinObj)(jc) {
+	if jc, _, ok := CallResult(gReal.Common().Args[0]); ok && ToFn(joinObj)(jc) {
 		els := VarargElems(jc.Common().Args[0])
 		okGlobArg = len(els) == 2 && IsParam(els[0], eds, 0)
 	}
@@ -248,7 +265,21 @@ func runC23(c *Ctx) {
 		// the map walked by the clean-up loop is the same one the write loop walks (all known sub-directories), not the desired content
 		okAll := false
 		if rl != nil && rl.Coll != nil {
-			for _, wc := range CallSites(ets, edsObj) {
+			writeSites := CallSites(ets, edsObj)
+			// the per-directory write may sit in a local closure or private helper called from the write loop
+			for _, h := range P.HelpersOf(ets) {
+				if len(CallSites(h, edsObj)) == 0 {
+					continue
+				}
+				for _, b := range ets.Blocks {
+					for _, in := range b.Instrs {
+						if wcall, ok := in.(ssa.CallInstruction); ok && wcall.Common().StaticCallee() == h {
+							writeSites = append(writeSites, wcall)
+						}
+					}
+				}
+			}
+			for _, wc := range writeSites {
 				if wc == cc {
 					continue
 				}
